@@ -3,7 +3,8 @@
    Model/Engines.v (entry points, .aux files, READ) over Model/Bst.v (the interpreter) and
    Model/Citations.v (citation resolution). *)
 From Pybtex Require Import Base.Prelude Base.PyChar Base.PyStr Model.BibtexStr Model.Wrap Model.Bst Model.Citations Model.Engines
-  Proofs.EnginesSort Proofs.Engines Proofs.EnginesExec Proofs.EnginesMeta Proofs.EnginesOrder Proofs.EnginesProbe.
+  Proofs.EnginesSort Proofs.Engines Proofs.EnginesExec Proofs.EnginesMeta Proofs.EnginesOrder Proofs.EnginesProbe Proofs.EnginesAux Proofs.EnginesItems.
+From Pybtex Require Model.Aux.
 From Coq Require Import Permutation Sorted.
 
 (* Driving the engine through an .aux file = the equivalent explicit call, byte for byte: whenever the
@@ -27,6 +28,46 @@ Theorem aux_equals_explicit : forall fmt_name cw fuel fs aux style bf m ad sty d
   end.
 Proof. exact make_bibliography_explicit. Qed.
 Print Assumptions aux_equals_explicit.
+
+(* The .aux reader of Model/Engines.v and the validated model of pybtex/auxfile.py (Model/Aux.v, property C20)
+   are the same reader: on corresponding file systems (an FAux file = its clean lines, each followed by a line end;
+   `fs_rel`) they return the same style, database names, citations, canonical-key table and number of reports
+   (`agree`), and the simplified one fails only when the real one raises.  OutOfFuel = the simplified reader
+   declines (nesting deeper than its bound, or a file that is no .aux file is \@input). *)
+Theorem aux_reader_simulation : forall fs afs, fs_rel fs afs -> forall d f,
+  match aux_parse_file d fs f with
+  | Ok ad => exists a, Aux.parse_aux (S d) afs Aux.Capture f = Aux.Ret a /\ agree ad a
+  | PyErr _ _ => exists e s, Aux.parse_aux (S d) afs Aux.Capture f = Aux.Raise e s
+  | OutOfFuel => True
+  | Crash => False
+  end.
+Proof. exact reader_sim. Qed.
+Print Assumptions aux_reader_simulation.
+Theorem aux_reader_bridge : forall fs afs, fs_rel fs afs -> forall d f ad,
+  aux_parse_file d fs f <> OutOfFuel ->
+  (aux_parse_file d fs f = Ok ad <-> exists a, Aux.parse_aux (S d) afs Aux.Capture f = Aux.Ret a /\ agree ad a).
+Proof. exact reader_bridge. Qed.
+Print Assumptions aux_reader_bridge.
+
+(* aux_equals_explicit about the REAL reader: what C20's theorems (citations_spec, style_is_first,
+   data_is_first_split, reported_errors_spec ...) say about `a` is what make_bibliography hands on. *)
+Theorem aux_equals_explicit_real_reader : forall fmt_name cw fuel fs afs aux style bf m a sty data,
+  fs_rel fs afs -> aux_parse_file aux_depth fs aux <> OutOfFuel ->
+  Aux.parse_aux (S aux_depth) afs Aux.Capture aux = Aux.Ret a ->
+  Aux.a_data a = Some data ->
+  (match style with Some s => Some s | None => Aux.a_style a end) = Some sty ->
+  let fmt := match bf with Some f => f | None => 0 end in
+  match format_from_files fmt_name cw fuel fs (map (fun n => BName (n ++ suffix_of fmt)) data) sty
+                          (Some (Aux.a_cits a)) bf m None false with
+  | Ok o => exists bbl, o = mkOut fs (Some bbl) (o_reports o) /\
+            make_bibliography fmt_name cw fuel fs aux style bf m =
+            Ok (mkOut (fs_write fs (splitext_root aux ++ s_bbl) bbl) None (length (Aux.a_errs a) + o_reports o))
+  | PyErr c l => make_bibliography fmt_name cw fuel fs aux style bf m = PyErr c l
+  | Crash => make_bibliography fmt_name cw fuel fs aux style bf m = Crash
+  | OutOfFuel => make_bibliography fmt_name cw fuel fs aux style bf m = OutOfFuel
+  end.
+Proof. exact make_bibliography_real_reader. Qed.
+Print Assumptions aux_equals_explicit_real_reader.
 
 (* What an .aux file (without \@input) says: its citations are the comma-separated pieces of its
    \citation lines, in order; its style / database names those of the FIRST \bibstyle / \bibdata line. *)
@@ -162,6 +203,30 @@ Theorem reverse_visits_each_once : forall fmt_name cw fuel st f o st',
 Proof. exact reverse_command_chain. Qed.
 Print Assumptions reverse_visits_each_once.
 
+(* The engine-level fact behind "one item per resolved citation" for ANY style: let the interpreter, at an
+   ITERATE {f} command, still hold the style's code (`has_code vars`: write$ / cite$ are the built-ins, every
+   function of the table `vars` is bound as there) and let f be good for the type of every entry the engine holds
+   (`good_call`: f is a function that `emits`, or f is call.type$ and the type's function -- default.type for an
+   unknown type -- emits; a body `emits` if at its top level it executes `"\bibitem..." write$` and later
+   `cite$ write$`, or starts by calling a function that does).  If the command succeeds, the text written
+   (white space aside: wrapping only moves white space) grows by one segment per held citation, in order, each
+   containing the \bibitem literal followed by that citation's key.  `emits` / `good_call` are syntactic; the
+   harness evaluates them on the ASTs of the shipped styles (plain, unsrt, alpha, unsrt_mixed, apacite satisfy
+   them for every generated entry type; jurabib and IEEEtran build the item differently and stay oracle-only). *)
+Theorem items_per_citation : forall fmt_name cw vars fuel st f o d st',
+  vlookup f (st_vars st) = Some o -> has_code vars st -> st_db st = Some d ->
+  (forall k, In k (st_cites st) -> exists e, alookup str_eqb k (r_entries d) = Some e /\ good_call vars f (e_type e)) ->
+  run_command fmt_name cw fuel st (Cmd nm_iterate [[IId f]]) = Ok st' ->
+  exists segs, outx st' = outx st ++ concat segs /\ Forall2 item_segment (st_cites st) segs.
+Proof. exact iterate_items. Qed.
+Print Assumptions items_per_citation.
+(* no style code -- any function, built-in, while$ -- rebinds a function or built-in, creates a variable, changes
+   the current entry or the database, or takes back text already written *)
+Theorem style_code_is_stable : forall fmt_name cw fuel st p st',
+  exec fmt_name cw fuel st p = Ok st' -> keeps st st'.
+Proof. exact exec_keeps. Qed.
+Print Assumptions style_code_is_stable.
+
 (* End to end for one concrete non-sorting style,
      ENTRY {title} {} {}  FUNCTION {f} { cite$ write$ newline$ }  READ  ITERATE {f} :
    whatever the bibliography files and the citation list, the run succeeds and the output consists of
@@ -235,6 +300,26 @@ a
     = Some [(S_ "doc.bbl", S_ "Yb
 ")].
 Proof. vm_compute. split; [eexists; repeat split|split; reflexivity]. Qed.
+
+Example real_reader_example :
+  option_map (fun a => (Aux.a_cits a, Aux.a_style a, Aux.a_data a, length (Aux.a_errs a)))
+    (match Aux.parse_aux (S aux_depth) (afs_of ex_fs) Aux.Capture (S_ "doc.aux") with Aux.Ret a => Some a | _ => None end)
+  = Some ([S_ "b"; S_ "a"], Some (S_ "s"), Some [S_ "db"], 0) /\
+  is_ok (aux_parse_file aux_depth ex_fs (S_ "doc.aux")) = true.
+Proof. vm_compute. auto. Qed.
+
+(* plain.bst's shape: article = { output.bibitem ... }, output.bibitem = { newline$ "\bibitem{" write$ cite$ write$ "}" write$ ... } *)
+Definition ex_item_vars : list (str * obj) :=
+  (S_ "article", OFun [IId (S_ "output.bibitem"); IStr (S_ "x"); IId (S_ "write$")]) ::
+  (S_ "output.bibitem", OFun [IId (S_ "newline$"); IStr (S_ "\bibitem{"); IId (S_ "write$"); IId (S_ "cite$"); IId (S_ "write$"); IStr (S_ "}"); IId (S_ "write$")]) ::
+  initial_vars.
+Example items_example :
+  good_call ex_item_vars (S_ "call.type$") (S_ "article") /\ builtins_ok ex_item_vars.
+Proof.
+  split; [|split; reflexivity]. right. split; [reflexivity|]. left. eexists. split; [reflexivity|].
+  right. exists (S_ "output.bibitem"). eexists. eexists. split; [reflexivity|]. split; [reflexivity|].
+  left. exists [IId (S_ "newline$")], (S_ "\bibitem{"), [], [IStr (S_ "}"); IId (S_ "write$")]. split; reflexivity.
+Qed.
 
 Example uncited_example :
   never_wanted [nth 0 ex_db (mkB [] [] []); nth 2 ex_db (mkB [] [] [])] [S_ "b"; S_ "a"] (S_ "u") /\
